@@ -349,6 +349,7 @@ func ruleGoroutines(c *Ctx, m *termModel, rule string) {
 		{"root:Node.Initialize", "(gomavlib.Node).run", "loop"},
 		{"root:channelProvider.start", "(gomavlib.channelProvider).run", "wg"},
 		{"root:Channel.start", "(gomavlib.Channel).run", "wg"},
+		{"root:Node.run", "(gomavlib.Channel).run", "wg"}, // Channel.start written in line in the node loop
 		{"root:Channel.run", "closure:root:Channel.run$", "handshake"},
 		{"root:Channel.run", "(gomavlib.Channel).runReader", "handshake"},
 		{"root:Channel.run", "(gomavlib.Channel).runWriter", "handshake"},
@@ -372,7 +373,7 @@ func ruleGoroutines(c *Ctx, m *termModel, rule string) {
 				// wg.Add dominates go; target defers wg.Done in entry block
 				okAdd := false
 				for _, a := range callsNamed(fn, "(sync.WaitGroup).Add") {
-					if instrDominates(a, g) && strings.HasSuffix(ex(a.Common().Args[0]), ".node.wg") {
+					if wgx := ex(a.Common().Args[0]); instrDominates(a, g) && (strings.HasSuffix(wgx, ".node.wg") || (wgx == "&recv.wg" || wgx == "recv.wg") && strings.HasPrefix(fnLocalName(fn), "Node.")) {
 						if k, ok := constInt(a.Common().Args[1]); ok && k == 1 {
 							okAdd = true
 						}
